@@ -323,7 +323,33 @@ def rule_7(ctx):
     n += S.check_reference_workbook(ctx, anchor, 'loaded workbook',
                                     'Evaluating the loaded model gives the values the workbook itself stores (the same as a model built directly '
                                     'from the same cell contents).')
-    ctx.floor(60, 'loaded-workbook cells')
+    # formulas stored with layout, a sheet title with a run of blanks: the loaded cell holds the stored text, character by character
+    layout = {'Q1  Data': {'A1': 4, 'B1': '=A1*2', 'B2': '=SUM(A1:B1)'},
+              'Summary': {'A1': 3, 'B1': "='Q1  Data'!B1+A1", 'B2': '=IF(A1>1,\n   A1*3,\n   0)', 'B3': '=A1 + \n A1', 'B4': '=A1&"  x  "&"a""  ""b"',
+                          'B5': "=SUM('Q1  Data'!A1:B1)", 'B6': "=SUM( 'Q1  Data'!A1:B1 ,  A1 )", 'B7': '=total  +  1', 'B8': '=LEN("a\n\n  b")'}}
+    lnames = {'total': "'Q1  Data'!$B$2"}
+    lwant = {'Q1  Data!B1': 8, 'Q1  Data!B2': 12, 'Summary!B1': 11, 'Summary!B2': 9, 'Summary!B3': 6, 'Summary!B4': ('Text', '3  x  a"  "b'), 'Summary!B5': 12,
+             'Summary!B6': 15, 'Summary!B7': 13, 'Summary!B8': 6, 'total': 12}
+    wb = W.Workbook(ctx, sheets=layout, names=lnames)
+    cells = wb.model.f.get('cells')
+    for sheet, content in layout.items():
+        for coord, text in content.items():
+            if not (isinstance(text, str) and text.startswith('=')):
+                continue
+            addr = f'{sheet}!{coord}'
+            cell = cells.get(addr) if isinstance(cells, dict) else None
+            formula = cell.f.get('formula') if isinstance(cell, Rec) else None
+            held = formula.f.get('formula') if isinstance(formula, Rec) else None
+            n += 1
+            ctx.expect(held == text, anchor, f'formula text of {addr} as stored',
+                       f'the loaded cell {addr} holds the formula text {held!r}, the workbook stores {text!r}: a cell holds its formula text - layout, '
+                       'runs of blanks inside quoted sheet titles and text literals included')
+    for addr, want in lwant.items():
+        got = wb.value(addr)
+        n += 1
+        ctx.expect(S.same(got, want), anchor, f'laid-out workbook: {addr}',
+                   f'{addr} of the workbook {layout} with the name {lnames} evaluates to {got!r}, expected {want!r}')
+    ctx.floor(80, 'loaded-workbook cells')
 
 
 RULES = [
